@@ -1,6 +1,6 @@
 From Coq Require Import ZArith List Bool Reals Lra.
 From Flocq Require Import Core BinarySingleNaN.
-Require Import GV.FloatBase GV.FloatLemmas GV.AngleM GV.AngleProofs GV.GeonumM GV.GeonumProofs GV.TraitsM GV.NewProofs GV.CtorProofs GV.PiBounds GV.TrigProofs GV.DotValue GV.DistValue GV.ClosureProofs GV.SumUpper GV.DirProofs GV.SumDir.
+Require Import GV.FloatBase GV.FloatLemmas GV.AngleM GV.AngleProofs GV.GeonumM GV.GeonumProofs GV.TraitsM GV.NewProofs GV.CtorProofs GV.PiBounds GV.TrigProofs GV.DotValue GV.DistValue GV.ClosureProofs GV.SumUpper GV.DirProofs GV.SumDir GV.Atan2Ideal.
 Open Scope R_scope.
 Require Import GV.Properties.C06.
 Check C06_sub_is_add_neg : forall (L : libm) a b,
@@ -72,3 +72,7 @@ Check C06_cartesian : forall (L : libm) (u u2 : R) a b, cos_acc L u -> sin_acc L
            + 3 * E + (M + 2 * E) * (u2 + tolN) in
   Rabs (R_ (mag r) * cos (dirR (ang r)) - Vx) <= T /\ Rabs (R_ (mag r) * sin (dirR (ang r)) - Vy) <= T.
 Print Assumptions C06_cartesian.
+Check C06_premises_inhabited : exists L : libm,
+  cos_acc L (/ 4503599627370496) /\ sin_acc L (/ 4503599627370496) /\
+  atan2_acc L (/ 1125899906842624) /\ / 4503599627370496 <= / 1000.
+Print Assumptions C06_premises_inhabited.
